@@ -76,8 +76,10 @@ func (b *BoundedIterator) SeekToLast() {
 		// key before the end bound, but it works for now
 		b.Iterator.Seek(b.end)
 
-		// If we landed exactly at the end bound, back up one
-		if b.Iterator.Valid() && bytes.Equal(b.Iterator.Key(), b.end) {
+		// The last key of the range is the greatest key before the end bound.
+		// Seek positioned us at or after the end bound (or nowhere, if every
+		// key is smaller), so in all cases we have to back up
+		{
 			// We need to back up because end is exclusive
 			// This is inefficient but correct
 			b.Iterator.SeekToFirst()
